@@ -41,16 +41,24 @@ def builder_events(facts, b):
         # width from the generic argument of extend::<[u8; N]> / <&[u8; N]>
         m = re.search(r"extend::<&?\[u8; (\d+)\]>", c["path"])
         width = int(m.group(1)) if m else None
+        while sn.kind in ("ref", "deref", "cast"):
+            sn = strip(sn[1])
         if sn.kind == "agg" and sn[1] == "array":
             vals = [strip(v) for _, v in sn[3]]
             if all(v.kind == "const" for v in vals):
                 return ("const", [v[1] for v in vals], [v[3].split("::")[-1] if v[3] else None for v in vals])
+        if sn.kind == "const" and c["name"] == "push":
+            return ("const", [sn[1]], [sn[3].split("::")[-1] if sn[3] else None])      # one byte pushed
+        if sn.kind == "repeat" and const_eval(sn[1]) is not None and re.match(r"\d+", str(sn[2])):
+            return ("fillv", const_eval(sn[1]), int(re.match(r"\d+", str(sn[2])).group(0)))                                  # extend_from_slice(&[v; n])
         for x in walk(node):
             if x.kind == "call" and x[6] == "octets":
-                return ("addr", width, "v4" if "Ipv4" in x[1] else "v6")
+                fam6 = "Ipv6" in x[1] + x[2]
+                return ("addr", width if width is not None else (16 if fam6 else 4), "v6" if fam6 else "v4")
             if x.kind == "call" and x[6] in ("to_be_bytes", "to_le_bytes", "to_ne_bytes"):
                 inner = [y[6] for y in walk(x) if y.kind == "call"]
-                return ("int", width, x[6][3:5], "port" if "port" in inner else "?")
+                mw = re.search(r"impl [ui](\d+)", x[1] + " " + x[2])
+                return ("int", width if width is not None else (int(mw.group(1)) // 8 if mw else None), x[6][3:5], "port" if "port" in inner else "?")
         if sn.kind == "param":
             return ("rest", sn[2])
         return ("?", fmt(node))
@@ -81,7 +89,12 @@ def builder_events(facts, b):
         vals = [v for s2, v in g.edges if s2 == succ and v]
         if not vals:
             return auto
-        ev = ("variant", vals[0])
+        # `match target` and `match target.ip()` select the same family: key the match by the value it inspects
+        pk = ",".join(sorted(x for x in leaves(g.pred) if x.startswith("param:"))) or fmt(strip(g.pred))[:200]
+        for e in auto:
+            if e[0] == "variant" and len(e) > 2 and e[2] == pk and e[1] != vals[0]:
+                return STOP            # a second match on the same value cannot take a different arm on this path
+        ev = ("variant", vals[0], pk)
         return auto + (ev,) if ev not in auto else auto
 
     ex = Explorer(facts, b, on_term=on_term, on_edge=on_edge)
@@ -126,6 +139,8 @@ def check_r1(facts, rep, crate):
                     got.append(("addr", d[1]))
                 elif d[0] == "int":
                     got.append(("int", d[1], d[2], d[3]))
+                elif d[0] == "fillv":
+                    got.append(("zeros" if d[1] == 0 else "fill%s" % d[1], d[2]))
                 elif d[0] == "rest":
                     got.append(("rest",))
                 else:
@@ -233,6 +248,8 @@ def array_literals(facts, b):
                     n = strip(tr.operand(o))
                     if n.kind == "const":
                         items.append(("c", n[1], n[3].split("::")[-1] if n[3] else None))
+                    elif const_eval(n) is not None:
+                        items.append(("c", const_eval(n), None))      # e.g. a byte of a constant address / port handed to a general writer
                     else:
                         items.append(("v", _var_name(b, n)))
                 out.append((items, s["loc"]))
@@ -380,7 +397,12 @@ def _check_indexed_writer(facts, rep, rid, b):
         vals = [v for s2, v in g.edges if s2 == succ and v]
         if not vals:
             return auto
-        ev = ("variant", vals[0])
+        # `match target` and `match target.ip()` select the same family: key the match by the value it inspects
+        pk = ",".join(sorted(x for x in leaves(g.pred) if x.startswith("param:"))) or fmt(strip(g.pred))[:200]
+        for e in auto:
+            if e[0] == "variant" and len(e) > 2 and e[2] == pk and e[1] != vals[0]:
+                return STOP            # a second match on the same value cannot take a different arm on this path
+        ev = ("variant", vals[0], pk)
         return auto + (ev,) if ev not in auto else auto
 
     ex = Explorer(facts, b, on_stmt=on_stmt, on_term=on_term, on_edge=on_edge)
